@@ -21,8 +21,7 @@ RULE = ('Generated well-formed WBS specs incl. unschedulable ones: hierarchical 
         'IResource subclass that aborts after 10^6*(tasks+1) capacity queries (far above the library\'s own horizons); a '
         '120 s alarm only marks a case inconclusive.  Non-trivial = case unschedulable by the model (any class) or '
         'schedulable with a zero-capacity stretch >= 30 days; distinct = distinct case.')
-ASSUMPTIONS = ['external predecessors have ids different from every member id',
-               'a loop that makes no capacity query would only hit the wall-clock guard and be reported inconclusive']
+ASSUMPTIONS = [               'a loop that makes no capacity query would only hit the wall-clock guard and be reported inconclusive']
 
 
 class _Budget(BaseException):
@@ -118,7 +117,7 @@ def c14_case(draw, max_tasks=7):
         ext = []
         for k in range(draw(st.integers(1, 2))):
             dated = flavour == 'ext' or (flavour == 'mix' and draw(st.booleans()))
-            e = dict(id=100 + k, succ=[draw(st.sampled_from(m.order))])
+            e = dict(id=draw(st.sampled_from([100 + k, 100 + k, draw(st.sampled_from(m.order))])), succ=[draw(st.sampled_from(m.order))])
             if dated:
                 s = BASE + timedelta(days=draw(st.integers(-30, 10)))
                 e['start'] = iso(s)
